@@ -71,6 +71,10 @@ func (r *Row) Add(c Cell) *Row {
 		// the row already belongs to a table: keep its column count in step
 		r.inTable.resizeColumnsAtLeast(column)
 	}
+	if r.ErrorContainer == nil && len(r.rowCellCallbacks.addTime) > 0 {
+		// not yet in a table: hold callback errors until AddRow collects them
+		r.ErrorContainer = NewErrorContainer()
+	}
 	invokePropertyCallbacks(r.rowCellCallbacks, CB_AT_ADD, ptr, r.ErrorContainer)
 	return r
 }
